@@ -319,6 +319,9 @@ def run(ctx):
             ctx.violation(f"C03|geometry|{bad[0]}|{shape_key(d)}", f"shape {shape_key(d)} (e.g. {d['module']}:{d['tag']}): {bad[1]}",
                           {"mode": "geometry", "decl": d, "seed": ctx.seed})
     ctx.set("geometry_updates", trans)
+    for d, _, _q in jobs[ctx.seed % len(jobs):][:2]:
+        ctx.sample({"geometry_case": {"module": d["module"], "item": d["tag"], "pos": d["pos"], "bitpos": d["bitpos"], "type": d["type"],
+                                      "patches": f"offsets {max(0, d['pos']-2)}..{d['pos']+3}, lengths 1..4, all 256x256 old/new bytes on the exact cover"}})
     ctx.log(f"(i) {len(shapes)} shapes: {trans} updates")
     jobs = [(m, k, ctx.seed) for m, k in lib.table_modules()]
     tn = 0
